@@ -49,6 +49,7 @@ def run(ctx):
     # the removal call
     removes = [(n, b) for n, b in astx.find(list(fn.body), pat("$g.remove_edges_from($es)"))]
     comp = None
+    acc_form = None
     with ctx.obligation("C18.5", "exactly the drawn set is removed, from the copy") as o:
         if len(removes) != 1:
             o.undecided(f"expected one remove_edges_from call, found {len(removes)}", fn)
@@ -60,6 +61,11 @@ def run(ctx):
                 es = es.args[0]
             if recv == g_param:
                 pass  # already reported by C18.1
+            if isinstance(es, ast.Name):
+                # es = []; for e in edges: if r > phi: es.append(e)   is the same comprehension, written out
+                acc_form = rules.as_comprehension(sc, es.id)
+                if acc_form is not None:
+                    es = acc_form
             if isinstance(es, (ast.ListComp, ast.GeneratorExp, ast.SetComp)) and len(es.generators) == 1:
                 comp = es
                 ok_elt = isinstance(es.elt, ast.Name) and txt(es.elt) == txt(es.generators[0].target)
@@ -117,7 +123,7 @@ def run(ctx):
         if comp is None:
             o.undecided("removal comprehension not recognised", fn)
         else:
-            orig = sc.deref(removes[0][1]["es"])
+            orig = sc.deref(removes[0][1]["es"]) if acc_form is None else acc_form
             gen = orig.generators[0] if isinstance(orig, (ast.ListComp, ast.GeneratorExp, ast.SetComp)) else comp.generators[0]
             draws = [n for c in gen.ifs for n in ast.walk(c) if _is_random_call(prog, fn, n)]
             if len(draws) == 1:
